@@ -31,7 +31,7 @@ type c17Case struct {
 	Alphabet string     `json:"alphabet"` // alnum | base64 | special
 	Fault    *sim.Fault `json:"fault,omitempty"`
 	Seed     int64      `json:"seed"`
-	Names    int        `json:"names,omitempty"` // 2: the info file lists a second device name to fall back to
+	Names    int        `json:"names,omitempty"`    // 2: the info file lists a second device name to fall back to
 	KeyForm  string     `json:"key_form,omitempty"` // PAN-OS: how the keygen reply carries the key ("" plain text, cdata)
 }
 
